@@ -682,6 +682,8 @@ def cases(tier):
                 yield Case("after2:%s,%s" % (a, b), {"kind": "after2", "a": a, "b": b}, True)
     for name in sorted(BATCH):
         yield Case("batch:" + name, {"kind": "batch", "name": name}, True)
+    for name in sorted(BATCH4):
+        yield Case("batch:4d:" + name, {"kind": "batch", "name": "4d:" + name}, True)
 
 
 def evaluate(p):
@@ -854,15 +856,62 @@ BATCH = {
 }
 
 
+def _b4(kind, par=None):
+    """two leading batch axes (frames, sub-apertures, y, x) against per-item calls"""
+    def f(stack4):
+        from aotools.image_processing import centroiders as cen
+        from aotools import interpolation as ip, fouriertransform as ftm
+        a, b = stack4.shape[:2]
+        if kind == "cog":
+            full = numpy.asarray(cen.centre_of_gravity(stack4.copy(), threshold=par))
+            one = lambda im: numpy.asarray(cen.centre_of_gravity(im.copy(), threshold=par))
+            pick = lambda i, j: full[:, i, j]
+        elif kind == "quad":
+            s2 = stack4[..., :2, :2]
+            full = numpy.asarray(cen.quadCell(s2.copy()))
+            one = lambda im: numpy.asarray(cen.quadCell(im[:2, :2].copy()))
+            pick = lambda i, j: full[:, i, j]
+        elif kind == "bin":
+            full = numpy.asarray(ip.binImgs(stack4.copy(), 2))
+            one = lambda im: numpy.asarray(ip.binImgs(im.copy(), 2))
+            pick = lambda i, j: full[i, j]
+        else:
+            fn = getattr(ftm, kind)
+            cast = (lambda x: x.astype(float)) if kind.startswith("r") else (lambda x: x.astype(complex))
+            full = numpy.asarray(fn(cast(stack4), 0.5))
+            one = lambda im: numpy.asarray(fn(cast(im), 0.5))
+            pick = lambda i, j: full[i, j]
+        if full.ndim < 3 or (kind in ("cog", "quad") and full.shape != (2, a, b)):
+            raise ValueError("result of shape %s for a batch of shape %s" % (full.shape, stack4.shape))
+        return [pick(i, j) for i in range(a) for j in range(b)], [one(stack4[i, j]) for i in range(a) for j in range(b)]
+    return f
+
+
+BATCH4 = {"centre_of_gravity": _b4("cog", 0), "centre_of_gravity:thr=0.3": _b4("cog", 0.3), "quadCell": _b4("quad"),
+          "binImgs": _b4("bin"), "ft2": _b4("ft2"), "ift2": _b4("ift2"), "rft2": _b4("rft2")}
+
+
 def _batch(o, name):
     fr = _frames()
-    f = BATCH[name]
+    if name.startswith("4d:"):
+        f = BATCH4[name[3:]]
+        stacks = []
+        for (a, b) in ((2, 2), (1, 3), (3, 1), (2, 4), (4, 2)):     # incl. sub-aperture count == image width
+            idx = [(3 * i + 5 * j + i * j) % len(fr) for i in range(a) for j in range(b)]
+            stacks.append(("lead=%dx%d" % (a, b), numpy.array([fr[t] * (1 + 0.5 * k) for k, t in enumerate(idx)]
+                                                              ).reshape((a, b) + fr[0].shape)))
+    else:
+        f = BATCH[name]
+        stacks = [("frames=" + "".join(map(str, tup)), numpy.array([fr[t] for t in tup]))
+                  for depth in (1, 2, 3) for tup in itertools.product(range(len(fr)), repeat=depth)]
+    return _batch_run(o, f, stacks)
+
+
+def _batch_run(o, f, stacks):
     worst = 0.0
     n = 0
-    for depth in (1, 2, 3):
-        for tup in itertools.product(range(len(fr)), repeat=depth):
-            stack = numpy.array([fr[t] for t in tup])
-            sub = "frames=" + "".join(map(str, tup))
+    for sub, stack in stacks:
+        if True:
             try:
                 full, singles = f(stack)
             except Exception as e:
